@@ -961,6 +961,132 @@ theorem dict_collect_loses_entry :
     m.Pairwise (fun p q => cmp q.1 p.1 ≠ .eq) ∧ (dictCollect cmp eq m).length = 1 ∧ (dictCopy cmp m).length = 2 := by
   decide
 
+open MJ.CollD in
+theorem ins_eq_insertB (k v : V) : ∀ ps : List (V × V), ins cmpV k v ps = insertB k v ps
+  | [] => by simp [ins, insertB]
+  | (k', v') :: ps => by
+    unfold ins insertB
+    cases h : cmpV k k' <;> simp [ins_eq_insertB k v ps]
+
+open MJ.CollD in
+/-- `dict(m)` builds the very map `Value::from_pairs` / a map literal builds from the entries of `m`, so every
+    theorem about `mkMap .btree` (sortedness, lookups, `==`) speaks about the copy -/
+theorem dict_copy_is_from_pairs (ps : List (V × V)) : V.map (dictCopyV ps) = mkMap .btree ps := by
+  unfold dictCopyV dictCopy mkMap
+  simp only
+  congr 1
+  have : (fun (acc : List (V × V)) (p : V × V) => ins cmpV p.1 p.2 acc) = (fun acc p => insertB p.1 p.2 acc) := by
+    funext acc p; exact ins_eq_insertB p.1 p.2 acc
+  rw [this]
+
+open MJ.CollD in
+/-- `dict(m, k=v)`: the keyword entry is inserted into the copy, so `k` looks up to `v` -/
+theorem dict_update_last_wins (k v : V) (hk : InRange k) (ps : List (V × V)) :
+    getB k (insertLit k v (dictCopyV ps)) = some v :=
+  insertLit_lookup k v (cmp_refl k hk) _
+
+open MJ.CollD in
+/-- `namespace(m)` holds exactly the string-keyed entries of `m` (fix 903639e: a bytes key is not one) -/
+theorem namespace_keeps_string_entries (ps : List (V × V))
+    (hpw : ps.Pairwise (fun p q => cmpV q.1 p.1 ≠ .eq)) :
+    (nsCopyV ps).Perm (ps.filter (fun p => isStrKey p.1)) :=
+  dictCopy_perm cmpV _ (hpw.filter _)
+
+open MJ.CollD in
+/-- an attribute lookup on the namespace finds exactly the string keys of `m`; a bytes probe finds nothing,
+    whatever text it holds -/
+theorem namespace_lookup_iff (ps : List (V × V)) (hpw : ps.Pairwise (fun p q => cmpV q.1 p.1 ≠ .eq)) :
+    (∀ s : List Nat, (nsGetV ps (.str s)).isSome = true ↔ ∃ p ∈ ps, p.1 = .str s) ∧
+    (∀ b : List Nat, nsGetV ps (.bytes b) = Option.none) := by
+  refine ⟨?_, fun b => rfl⟩
+  intro s
+  have hperm := namespace_keeps_string_entries ps hpw
+  simp only [nsGetV, isStrKey, if_true]
+  rw [get_isSome_iff]
+  constructor
+  · rintro ⟨p, hp, hc⟩
+    have hp' := (hperm.mem_iff).mp hp
+    exact ⟨p, (List.mem_filter.mp hp').1, (cmpV_str_eq s p.1).mp hc⟩
+  · rintro ⟨p, hp, he⟩
+    refine ⟨p, (hperm.mem_iff).mpr (List.mem_filter.mpr ⟨hp, by rw [he]; rfl⟩), ?_⟩
+    rw [he]; exact (cmpV_str_eq s (.str s)).mpr rfl
+
+open MJ.CollD in
+/-- non-vacuous: the string key is found, the bytes key with the same text is not an attribute -/
+example : (nsGetV [(.str [97], .num (.i64 1)), (.bytes [97], .num (.i64 2))] (.str [97])).isSome = true ∧
+    (nsCopyV [(.str [97], .num (.i64 1)), (.bytes [97], .num (.i64 2))]).length = 1 := by decide
+
+/-! ## `preserve_order`: the IndexMap build has theorems of its own -/
+
+/-- inserting into the IndexMap never moves a key — a key that is already there (same hash items and `==`) keeps
+    its place and its spelling, a new key goes to the end: iteration order is insertion order -/
+theorem indexmap_insert_keeps_insertion_order (k v : V) (ps : List (V × V)) :
+    (insertI k v ps).map Prod.fst =
+      if ps.any (fun p => hkey k == hkey p.1 && eqV .index k p.1) then ps.map Prod.fst else ps.map Prod.fst ++ [k] := by
+  unfold insertI
+  split
+  · rw [List.map_map]
+    apply List.map_congr_left
+    intro p _
+    simp only [Function.comp]
+    split <;> rfl
+  · simp
+
+theorem getI_append_new (k v : V) (hrefl : eqV .index k k = true) : ∀ (ps : List (V × V)),
+    ps.any (fun p => hkey k == hkey p.1 && eqV .index k p.1) = false →
+    getI false k (ps ++ [(k, v)]) = some v
+  | [], _ => by simp [getI, hrefl]
+  | p :: ps, hnew => by
+    simp only [List.any_cons, Bool.or_eq_false_iff] at hnew
+    simp only [List.cons_append, getI, Bool.false_or, hnew.1, Bool.false_eq_true, if_false]
+    exact getI_append_new k v hrefl ps hnew.2
+
+/-- `m[k]` finds the entry just inserted under a new key whenever the key is `==` itself (every NaN-free value),
+    in maps of any size (a one-entry map skips the hash) -/
+theorem indexmap_get_after_insert_new (k v : V) (ps : List (V × V))
+    (hnew : ps.any (fun p => hkey k == hkey p.1 && eqV .index k p.1) = false)
+    (hrefl : eqV .index k k = true) : getV .index (insertI k v ps) k = some v := by
+  unfold insertI getV
+  simp only [hnew, Bool.false_eq_true, if_false]
+  cases ps with
+  | nil => simp [getI, hrefl]
+  | cons p ps =>
+    have : decide (((p :: ps) ++ [(k, v)]).length = 1) = false := by simp
+    rw [this]
+    exact getI_append_new k v hrefl (p :: ps) hnew
+
+/-- whatever `m[k]` finds in an IndexMap is the value of an entry whose key is `==` to the probe and — in a map
+    of more than one entry — feeds the hasher the same items (lookup by hash + `==`) -/
+theorem indexmap_lookup_sound (single : Bool) (k : V) : ∀ (ps : List (V × V)) (v : V), getI single k ps = some v →
+    ∃ p ∈ ps, eqV .index k p.1 = true ∧ (single = true ∨ (hkey k == hkey p.1) = true) ∧ p.2 = v
+  | [], v, h => by simp [getI] at h
+  | p :: ps, v, h => by
+    unfold getI at h
+    split at h
+    · rename_i hc
+      simp only [Bool.and_eq_true, Bool.or_eq_true] at hc
+      exact ⟨p, List.mem_cons_self, hc.2, hc.1, Option.some.inj h⟩
+    · obtain ⟨q, hq, h1, h2, h3⟩ := indexmap_lookup_sound single k ps v h
+      exact ⟨q, List.mem_cons_of_mem _ hq, h1, h2, h3⟩
+
+/-- … and complete: an entry whose key is `==` to the probe with the same hash items is found -/
+theorem indexmap_lookup_complete (single : Bool) (k : V) : ∀ (ps : List (V × V)),
+    (∃ p ∈ ps, eqV .index k p.1 = true ∧ (hkey k == hkey p.1) = true) → (getI single k ps).isSome = true
+  | [], h => by simp at h
+  | p :: ps, h => by
+    unfold getI
+    split
+    · rfl
+    · rename_i hc
+      obtain ⟨q, hq, h1, h2⟩ := h
+      rcases List.mem_cons.mp hq with rfl | hq
+      · simp [h1, h2] at hc
+      · exact indexmap_lookup_complete single k ps ⟨q, hq, h1, h2⟩
+
+/-- non-vacuous, and the reason the `==` / hash theorems need `noClash`: `true` and `1` are `==` but feed the hasher
+    different items, so a two-entry IndexMap keeps both and finds each under its own spelling only -/
+example : (insertI (.num (.i64 1)) (.str [98]) (insertI (.bool true) (.str [97]) [])).length = 2 := by decide
+
 /-- how the source builds and queries the derived dictionaries, read off `functions.rs`, `value/merge_object.rs`
     and `value/ops.rs`: `dict(m)` and `MergeDict::enumerate` insert one by one (`MJ.CollD.dictCopy`, `mergeKeys`;
     collecting would de-duplicate by `==`: `dict_collect_loses_entry`), `MergeDict::get_value` finds a key whose
